@@ -297,6 +297,9 @@ for ql in (0, 1, 2, 3):
       unwind=20)
     H(f"c13_q_count_q{ql}", "C13", f"c13::count::<{ql}, _>", f"SYSTem:ERRor:COUNt? with {ql} queued errors: answers "
       f"{ql}, changes nothing", "all error numbers, all register states", cap_s=300, mem_gb=3, unwind=12)
+H("c13_q_count_any", "C13", "c13::count_any", "SYSTem:ERRor:COUNt? on a device whose queue reports an arbitrary number of "
+  "unread items (< 100000): the response decodes to exactly that number", "all register states; any count < 100000",
+  cap_s=600, mem_gb=4, unwind=12)
 for ql, tier in ((0, "q"), (1, "q"), (2, "ta"), (3, "ta")):
     H(f"c13_{tier}_all_q{ql}", "C13", f"c13::all::<{ql}, _>", f"SYSTem:ERRor:ALL? with {ql} queued errors: all items in "
       f"order, queue emptied; empty -> 0,'No error'", "error numbers -999..-100 (fixed item width); queue length concrete",
@@ -586,7 +589,8 @@ PROPS["C20"] = {
 }
 
 PROPS["C13"] = {
-    "bounds": "one step from an arbitrary documented-wiring device: handle_error with 0..2 of 2 slots used; SYST:ERR? / "
+    "bounds": "one step from an arbitrary documented-wiring device: handle_error with 0..2 of 2 slots used; :COUN? for any "
+              "reported queue length < 100000; SYST:ERR? / "
               ":COUN? with 0..3 items, :ALL? with 0..1 items (2 and 3 are thorough-tier attempts: the drain loop over a "
               "symbolic-length ArrayVec did not finish symbolic execution in 15 min); *ESR? (c16_q_esr); *OPC (c16_q_opc_*); "
               "error numbers unrestricted",
